@@ -127,6 +127,19 @@ func c09(r *core.Run) {
 	for _, ac := range core.FieldAccesses(root, isList) {
 		o := core.Outermost(ac.Fn)
 		if ac.Write && o.Name() != "SetOwnedResources" {
+			// a helper the exported setters share (setOwnership) is part of the setters, not the defaulting
+			if cs := p.CallersOf(o); len(cs) > 0 && p.IsPrivateHelper(o) {
+				onlySetters := true
+				for _, c := range cs {
+					co := core.Outermost(c.Parent())
+					if !(strings.HasPrefix(co.Name(), "Set") && co.Object() != nil && co.Object().Exported()) {
+						onlySetters = false
+					}
+				}
+				if onlySetters {
+					continue
+				}
+			}
 			for p.IsPrivateHelper(o) && len(p.CallersOf(o)) == 1 && core.Outermost(p.CallersOf(o)[0].Parent()).Name() != "ResetAll" && !hasSubscribeInvoke(p, core.Outermost(p.CallersOf(o)[0].Parent())) {
 				o = core.Outermost(p.CallersOf(o)[0].Parent())
 			}
@@ -203,6 +216,21 @@ func c09(r *core.Run) {
 		}
 	}
 	allowedW := map[string]bool{"(*Service).SetOwnedResources": true}
+	// ... and a private helper that only exported setters call (setOwnership shared by SetOwnedResources / SetReset)
+	for _, fn := range root {
+		if cs := p.CallersOf(fn); len(cs) > 0 && p.IsPrivateHelper(fn) {
+			only := true
+			for _, c := range cs {
+				co := core.Outermost(c.Parent())
+				if !(strings.HasPrefix(co.Name(), "Set") && co.Object() != nil && co.Object().Exported()) {
+					only = false
+				}
+			}
+			if only {
+				allowedW[core.FuncName(fn)] = true
+			}
+		}
+	}
 	for n := range writers {
 		if allowedW[n] {
 			continue
@@ -247,6 +275,24 @@ func c09(r *core.Run) {
 		lab := "resources"
 		if ac.F == accF {
 			lab = "access"
+		}
+		// ... and each list defaults on its own: the store is not behind a test of the other list
+		// (a list set explicitly must not keep the other one from getting its default)
+		independent := true
+		for _, ed := range ctxEdges(p, ac.Instr, deflt, 0) {
+			for _, ft := range edgeFacts(ed) {
+				ci := core.Cond(ft.V)
+				if ci.Kind == "nilcmp" && ci.HasFld && isList(ci.Field) && ci.Field != ac.F {
+					independent = false
+				}
+			}
+		}
+		{
+			lab2 := "resources"
+			if ac.F == accF {
+				lab2 = "access"
+			}
+			r.Check(independent, "S1", core.FuncName(ac.Fn), "default-independent-of-the-other-list("+lab2+")", p.InstrPos(ac.Instr), "the default of this list does not depend on whether the other list is set", "the default of the "+lab2+" list is applied only under a condition on the other ownership list: with one list set explicitly the other stays nil for good - no subscription is made for that kind of request although handlers are registered, and the reset omits the patterns")
 		}
 		r.Check(nilOnly, "S1", core.FuncName(ac.Fn), "default-only-when-nil("+lab+")", p.InstrPos(ac.Instr), "the default replaces only an unset (nil) list", "the default ownership also replaces a list that was explicitly set to empty (the store is not on the list==nil edge): a service configured to own no "+lab+" patterns subscribes to and announces the default patterns anyway")
 	}
@@ -377,62 +423,7 @@ func c09(r *core.Run) {
 			}
 		}
 	}
-	// method wildcard never after '>'
-	for _, b := range subBlocks {
-		for _, in := range b.Instrs {
-			bo, ok := in.(*ssa.BinOp)
-			if !ok || bo.Op != token.ADD {
-				continue
-			}
-			if s, ok := core.ConstString(bo.Y); ok && s == ".*" {
-				g := false
-				for _, ed := range dominatingEdges(bo) {
-					cnd, succ := ed.Norm()
-					if c2, ok := cnd.(*ssa.BinOp); ok {
-						if k, ok := core.ConstInt(c2.Y); ok && k == '>' && ((c2.Op == token.NEQ && succ == 0) || (c2.Op == token.EQL && succ == 1)) {
-							g = true
-						}
-					}
-					// strings.HasSuffix(pattern, ">") is false
-					if c2, ok := cnd.(*ssa.Call); ok && succ == 1 {
-						if cal := c2.Common().StaticCallee(); cal != nil && cal.String() == "strings.HasSuffix" {
-							if sfx, ok := core.ConstString(c2.Common().Args[1]); ok && sfx == ">" {
-								g = true
-							}
-						}
-					}
-				}
-				// ... and nothing else about the pattern's text exempts it: a pattern ending in a one-token
-				// wildcard still needs the method token ('*' matches exactly one token)
-				other := ""
-				for _, ed := range dominatingEdges(bo) {
-					cnd, _ := ed.Norm()
-					c2, ok := cnd.(*ssa.BinOp)
-					if !ok || (c2.Op != token.NEQ && c2.Op != token.EQL) {
-						continue
-					}
-					k, isC := core.ConstInt(c2.Y)
-					if !isC || k == '>' {
-						continue
-					}
-					// a byte of a string compared with another character constant
-					x := core.Strip(c2.X)
-					isByte := false
-					switch y := x.(type) {
-					case *ssa.Index:
-						isByte = isStringType(y.X.Type())
-					case *ssa.Lookup:
-						isByte = isStringType(y.X.Type())
-					}
-					if isByte && k > 32 && k < 127 {
-						other = fmt.Sprintf("%q", rune(k))
-					}
-				}
-				r.Check(other == "", "S2", core.FuncName(sub), "method-wildcard-skipped-only-for-'>'", p.InstrPos(bo), "only a trailing full wildcard dispenses with the method token", "the method wildcard is also left out for patterns ending in "+other+": call and auth subjects under such a pattern (which have one more token, the method) match no subscription")
-				r.Check(g, "S2", core.FuncName(sub), "method-wildcard-not-after-'>'", p.InstrPos(bo), "'.*' is appended only when the pattern does not end in '>'", "a method wildcard can be appended after a full wildcard (invalid NATS subject)")
-			}
-		}
-	}
+	c09MethodWildcard(r, "S2", sub, subBlocks)
 
 	// ---- S3 / S4 -----------------------------------------------------------
 	inCh, okc := fieldByType(p, "", "Service", func(t types.Type) bool { _, ok := t.Underlying().(*types.Chan); return ok })
@@ -1431,4 +1422,69 @@ func c09SubscribesOnlyAtStartUp(r *core.Run, rule string, sub *ssa.Function) {
 			r.Check(inServe && !core.IsGo(sc), rule, core.FuncName(caller), "subscribes-only-at-start-up", p.InstrPos(sc), "the subscribing function is called from serve's start-up sequence", "the subscribing function is called outside serve's start-up sequence: the NATS client re-establishes every subscription on reconnect by itself, so subscribing again leaves each subject subscribed twice (more with every reconnect) - redundant subscriptions, and without a queue group every request is delivered and answered once per copy")
 		}
 	}
+}
+
+// c09MethodWildcard: '.*' (the method token) is appended to a call / auth
+// subject exactly when the owned pattern does not end in the full wildcard -
+// nothing else about the pattern's text dispenses with it (C09.S2; shared as
+// C05.M10: a pattern ending in '*' still needs the method token).
+func c09MethodWildcard(r *core.Run, rule string, sub *ssa.Function, subBlocks []*ssa.BasicBlock) {
+	p := r.P
+	// method wildcard never after '>'
+	for _, b := range subBlocks {
+		for _, in := range b.Instrs {
+			bo, ok := in.(*ssa.BinOp)
+			if !ok || bo.Op != token.ADD {
+				continue
+			}
+			if s, ok := core.ConstString(bo.Y); ok && s == ".*" {
+				g := false
+				for _, ed := range dominatingEdges(bo) {
+					cnd, succ := ed.Norm()
+					if c2, ok := cnd.(*ssa.BinOp); ok {
+						if k, ok := core.ConstInt(c2.Y); ok && k == '>' && ((c2.Op == token.NEQ && succ == 0) || (c2.Op == token.EQL && succ == 1)) {
+							g = true
+						}
+					}
+					// strings.HasSuffix(pattern, ">") is false
+					if c2, ok := cnd.(*ssa.Call); ok && succ == 1 {
+						if cal := c2.Common().StaticCallee(); cal != nil && cal.String() == "strings.HasSuffix" {
+							if sfx, ok := core.ConstString(c2.Common().Args[1]); ok && sfx == ">" {
+								g = true
+							}
+						}
+					}
+				}
+				// ... and nothing else about the pattern's text exempts it: a pattern ending in a one-token
+				// wildcard still needs the method token ('*' matches exactly one token)
+				other := ""
+				for _, ed := range dominatingEdges(bo) {
+					cnd, _ := ed.Norm()
+					c2, ok := cnd.(*ssa.BinOp)
+					if !ok || (c2.Op != token.NEQ && c2.Op != token.EQL) {
+						continue
+					}
+					k, isC := core.ConstInt(c2.Y)
+					if !isC || k == '>' {
+						continue
+					}
+					// a byte of a string compared with another character constant
+					x := core.Strip(c2.X)
+					isByte := false
+					switch y := x.(type) {
+					case *ssa.Index:
+						isByte = isStringType(y.X.Type())
+					case *ssa.Lookup:
+						isByte = isStringType(y.X.Type())
+					}
+					if isByte && k > 32 && k < 127 {
+						other = fmt.Sprintf("%q", rune(k))
+					}
+				}
+				r.Check(other == "", rule, core.FuncName(sub), "method-wildcard-skipped-only-for-'>'", p.InstrPos(bo), "only a trailing full wildcard dispenses with the method token", "the method wildcard is also left out for patterns ending in "+other+": call and auth subjects under such a pattern (which have one more token, the method) match no subscription")
+				r.Check(g, rule, core.FuncName(sub), "method-wildcard-not-after-'>'", p.InstrPos(bo), "'.*' is appended only when the pattern does not end in '>'", "a method wildcard can be appended after a full wildcard (invalid NATS subject)")
+			}
+		}
+	}
+
 }
